@@ -150,16 +150,15 @@ Proof.
   reflexivity.
 Qed.
 
-Section CyRun.
-Variable crc32c crc32 : list Z -> Z.
-Variable dec : Z -> list Z -> dres.
-Hypothesis dec_small : forall c p out, dec c p = DOk out -> small out.
+(* every output of the (abstract) codec is smaller than the largest possible allocation *)
+Definition dec_small (dec : Z -> list Z -> dres) : Prop :=
+  forall c p out, dec c p = DOk out -> small out.
 
-Lemma cy_v2_uncompress_wp h buf :
-  small buf -> 61 <= zlen buf ->
+Lemma cy_v2_uncompress_wp dec h buf :
+  dec_small dec -> small buf -> 61 <= zlen buf ->
   wp (cy_v2_uncompress dec h buf) (fun r => small (snd (fst r)) /\ 0 <= snd r <= zlen (snd (fst r))).
 Proof.
-  intros Hs Hl. unfold cy_v2_uncompress.
+  intros dec_small Hs Hl. unfold cy_v2_uncompress.
   destruct (h_attrs h mod 8 =? 0); [cbn [wp fst snd]; split; [assumption|lia]|].
   destruct (4 <? h_attrs h mod 8); [exact I|].
   step rd_wp. intros payload _.
@@ -167,17 +166,17 @@ Proof.
   cbn [wp fst snd]. split; [eapply dec_small; eassumption|]. pose proof (zlen_nonneg out). lia.
 Qed.
 
-Theorem cy_v2_run_ok validate buf :
-  small buf -> ok_status (snd (cy_v2_run crc32c dec fx validate buf)).
+Theorem cy_v2_run_ok crc32c dec validate buf :
+  dec_small dec -> small buf -> ok_status (snd (cy_v2_run crc32c dec fx validate buf)).
 Proof.
-  intros Hs. unfold cy_v2_run.
+  intros dec_small Hs. unfold cy_v2_run.
   pose proof (cy_v2_read_header_wp fx buf eq_refl) as W.
   destruct (cy_v2_read_header fx buf) as [h|e]; cbn [wp] in W; [|exact W].
   destruct W as [Hl _].
   assert (V : exists b, (if validate then cy_v2_validate crc32c h buf else Ok true) = Ok b).
   { destruct validate; [rewrite cy_v2_validate_eq by assumption|]; eauto. }
   destruct V as [b ->]. destruct b; [|exact I].
-  pose proof (cy_v2_uncompress_wp h buf Hs Hl) as U.
+  pose proof (cy_v2_uncompress_wp dec h buf dec_small Hs Hl) as U.
   destruct (cy_v2_uncompress dec h buf) as [[[sp b] pos]|e]; cbn [wp fst snd] in U; [|exact U].
   destruct U as [Hb Hpos].
   apply cy_v2_iter_ok; [assumption|lia|unfold zlen in *; lia].
@@ -258,9 +257,9 @@ Proof.
     cbv zeta. apply IHfuel; lia.
 Qed.
 
-Lemma cy_l_iter_ok magic main : ok_status (snd (cy_l_iter dec fx magic main)).
+Lemma cy_l_iter_ok dec magic main : dec_small dec -> ok_status (snd (cy_l_iter dec fx magic main)).
 Proof.
-  unfold cy_l_iter. cbv zeta.
+  intros dec_small. unfold cy_l_iter. cbv zeta.
   destruct (m_attrs main mod 8 =? 0); [exact I|].
   destruct (m_value main) as [value|]; [|exact I].
   destruct (3 <? m_attrs main mod 8); [exact I|].
@@ -268,18 +267,21 @@ Proof.
   destruct (dec (m_attrs main mod 8) value) as [out|e] eqn:E; [|exact I].
   assert (Hs : small out) by (eapply dec_small; eassumption).
   assert (A : wp (if 0 <? magic
-                  then bind (cy_last_offset fx out) (fun lo => Ok (wrap64 (m_offset main - lo)))
-                  else Ok (-1)) (fun _ => True)).
+                  then bind (cy_last_offset fx out) (fun lo => Ok (Some lo))
+                  else Ok None) (fun _ => True)).
   { destruct (0 <? magic); [|exact I]. step cy_last_offset_wp. intros lo _. exact I. }
   destruct (if 0 <? magic then _ else _) as [abs|e]; cbn [wp] in A; [|exact A].
   pose proof (zlen_nonneg out).
-  apply cy_l_inner_ok; [assumption|lia|unfold zlen in *; lia].
+  destruct abs as [lo|].
+  - destruct (lo =? -1); [exact I|].
+    apply cy_l_inner_ok; [assumption|lia|unfold zlen in *; lia].
+  - apply cy_l_inner_ok; [assumption|lia|unfold zlen in *; lia].
 Qed.
 
 Definition l_crc_field (buf : list Z) : Z := be_u (sub buf 12 4).
 Definition l_crc_content (buf : list Z) : list Z := sub buf 16 (zlen buf - 16).
 
-Lemma cy_l_validate_eq m buf :
+Lemma cy_l_validate_eq crc32 m buf :
   26 <= zlen buf ->
   cy_l_validate crc32 m buf = Ok (m_crc m =? crc32 (l_crc_content buf)).
 Proof.
@@ -289,16 +291,16 @@ Proof.
   reflexivity.
 Qed.
 
-Theorem cy_l_run_ok validate magic buf :
-  small buf -> ok_status (snd (cy_l_run crc32 dec fx validate magic buf)).
+Theorem cy_l_run_ok crc32 dec validate magic buf :
+  dec_small dec -> small buf -> ok_status (snd (cy_l_run crc32 dec fx validate magic buf)).
 Proof.
-  intros Hs. unfold cy_l_run.
+  intros dec_small Hs. unfold cy_l_run.
   pose proof (cy_l_read_record_wp 0 buf 0 Hs ltac:(lia)) as W.
   destruct (cy_l_read_record fx 0 buf 0) as [[main p]|e]; cbn [wp snd] in W; [|exact W].
   assert (V : exists b, (if validate then cy_l_validate crc32 main buf else Ok true) = Ok b).
   { destruct validate; [rewrite cy_l_validate_eq by lia|]; eauto. }
   destruct V as [b ->]. destruct b; [|exact I].
-  apply cy_l_iter_ok.
+  apply cy_l_iter_ok. assumption.
 Qed.
 
 (* ------------------------------------------------------------------ MemoryRecords driver *)
@@ -307,11 +309,11 @@ Proof.
   intros H. destruct st as [|f]; [exact I|]. destruct f; cbn in H; try contradiction. exact I.
 Qed.
 
-Theorem cy_mr_loop_ok validate buf : small buf -> forall fuel pos acc,
+Theorem cy_mr_loop_ok crc32c crc32 dec validate buf : dec_small dec -> small buf -> forall fuel pos acc,
   0 <= pos <= zlen buf -> zlen buf - pos < Z.of_nat fuel ->
   ok_status (snd (cy_mr_loop crc32c crc32 dec fx fuel validate buf pos acc)).
 Proof.
-  intros Hs. induction fuel; intros pos acc Hp Hf.
+  intros dec_small Hs. induction fuel; intros pos acc Hp Hf.
   - lia.
   - cbn [cy_mr_loop]. cbv zeta.
     destruct (zlen buf - pos <? 12) eqn:E1; [exact I|].
@@ -332,11 +334,10 @@ Proof.
     + cbn [snd]. apply rebase_ok. exact R.
 Qed.
 
-Theorem cy_decode_ok validate buf :
-  small buf -> ok_status (snd (cy_decode crc32c crc32 dec fx validate buf)).
+Theorem cy_decode_ok crc32c crc32 dec validate buf :
+  dec_small dec -> small buf -> ok_status (snd (cy_decode crc32c crc32 dec fx validate buf)).
 Proof.
-  intros Hs. unfold cy_decode. pose proof (zlen_nonneg buf).
-  apply cy_mr_loop_ok; [assumption|lia|unfold zlen in *; lia].
+  intros dec_small Hs. unfold cy_decode. pose proof (zlen_nonneg buf).
+  apply cy_mr_loop_ok; [assumption|assumption|lia|unfold zlen in *; lia].
 Qed.
 
-End CyRun.
